@@ -1,7 +1,7 @@
 #!/bin/bash
 # runs every registered check (quick by default) and validates the evidence files against the schema
 TIER=${1:-quick}
-cd /verif
+cd "$(dirname "$0")/.." && ROOT=$(pwd)
 fail=0
 for i in $(seq -w 1 20); do
   p=C$i
@@ -13,9 +13,9 @@ done
 python3-vt - <<'PY'
 import json, jsonschema, glob
 sch = json.load(open('/root/.vp/EVIDENCE.schema.json'))
-for f in sorted(glob.glob('/verif/evidence/C*.json')):
+for f in sorted(glob.glob('evidence/C*.json')):
     jsonschema.validate(json.load(open(f)), sch)
-jsonschema.validate(json.load(open('/verif/MANIFEST.json')), json.load(open('/root/.vp/MANIFEST.schema.json')))
-print('evidence + manifest valid:', len(glob.glob('/verif/evidence/C*.json')))
+jsonschema.validate(json.load(open('MANIFEST.json')), json.load(open('/root/.vp/MANIFEST.schema.json')))
+print('evidence + manifest valid:', len(glob.glob('evidence/C*.json')))
 PY
 exit $fail
